@@ -239,9 +239,12 @@ def runCase (st : DState) (what id : String) : List String :=
       (Shacl.emit st.cfg (Shexer.run st.cfg g)).flatMap fun ns =>
         ("NS\t" ++ ns.iri ++ "\t" ++ ns.targetClass) :: ns.props.map fun ps =>
           "PS\t" ++ (if ps.inverse then "I" else "D") ++ "\t" ++ ps.path ++ "\t" ++
-            (match ps.restr with
-             | .nodeKind k => "nodeKind:" ++ k | .none_ => "none" | .datatype d => "datatype:" ++ d
-             | .node i => "node:" ++ i | .inValue c => "in:" ++ c) ++ "\t" ++ occ ps.min ++ "\t" ++ occ ps.max
+            (let one : Shacl.Restriction → String := fun r => match r with
+               | .nodeKind k => "nodeKind:" ++ k | .none_ => "none" | .datatype d => "datatype:" ++ d
+               | .node i => "node:" ++ i | .inValue c => "in:" ++ c | .anyOf _ => "nested"
+             match ps.restr with
+             | .anyOf tys => "or:" ++ ";".intercalate (tys.map fun ty => one (Shacl.restrictionOf ty))
+             | r => one r) ++ "\t" ++ occ ps.min ++ "\t" ++ occ ps.max
     | "conf" =>
       let sel := if st.selLines.isEmpty then Spec.selectionOf st.cfg st.selTriples.toList else st.selLines.toList
       st.shapes.toList.flatMap fun sh =>
